@@ -1062,6 +1062,10 @@ class AffInterp:
             return lambda *x, **k: DataVal("%s|data|" % a)
         if isinstance(o, CArr) and a == "size":
             return o.size
+        if isinstance(o, CArr) and a == "ndim":
+            return 1
+        if isinstance(o, CArr) and a == "shape":
+            return (o.size,)
         if isinstance(o, list) and a == "append":
             return o.append
         if isinstance(o, Opaque):
